@@ -423,7 +423,19 @@ pub fn first_diff_entry(a: &Value, b: &Value) -> String {
 /// entries, not the order in which they are listed.
 pub fn canonical_all(body: &str) -> Option<Vec<Value>> {
     let v: Value = serde_json::from_str(body).ok()?;
-    let mut a = v.as_array()?.clone();
+    let mut a: Vec<Value> = v
+        .as_array()?
+        .iter()
+        .map(|e| {
+            // the fields the property speaks of; whatever else an entry carries
+            // (or will carry) is not compared
+            let mut m = serde_json::Map::new();
+            for k in ["icao24", "count", "firstseen", "lastseen"].iter().chain(PROV_FIELDS.iter()) {
+                m.insert(k.to_string(), e.get(*k).cloned().unwrap_or(Value::Null));
+            }
+            Value::Object(m)
+        })
+        .collect();
     a.sort_by(|x, y| x["icao24"].as_str().unwrap_or("").cmp(y["icao24"].as_str().unwrap_or("")));
     Some(a)
 }
